@@ -94,6 +94,7 @@ func (m *meta) init() (r error) {
 }
 
 func (m *meta) start() {
+	defer lib.VerifDone()
 	defer m.p.metas.Delete(m.id)
 
 	if lib.Recover() {
